@@ -49,7 +49,8 @@ def gen_and_build(plugin, ctx, clean=False):
                 ctx.facts_changed.append(rel)
         os.makedirs(os.path.join(core.BUILD, 'ocaml', pid), exist_ok=True)
         # PROVE -----------------------------------------------------------------------------
-        cone = core.cone(plugin.COQ_CONE + ([plugin.EXTRACT] if getattr(plugin, 'EXTRACT', None) else []))
+        cone = core.cone(plugin.COQ_CONE + ([plugin.EXTRACT] if getattr(plugin, 'EXTRACT', None) else [])
+                         + [e for _n, e, _d in getattr(plugin, 'EXTRA_BINARIES', [])])
         ctx.cone = cone
         ctx.forbidden = core.forbidden_scan(cone)
         ctx.obligations, ctx.obligation_names = core.count_obligations(cone)
@@ -95,6 +96,26 @@ def gen_and_build(plugin, ctx, clean=False):
                 if exe is None:
                     log.append('ocaml build failed:\n' + err[-3000:])
         ctx.model = core.Model(exe) if exe else None
+        if getattr(plugin, 'EXTRACT', None) and exe is None:
+            # fail closed: without the extracted binary there is no correspondence to speak of
+            ctx.prove_ok = False
+        # further extracted binaries (shared layers such as the handler skeletons of Model/Pipeline.v)
+        ctx.extra_models = {}
+        for name, extract, drivers in getattr(plugin, 'EXTRA_BINARIES', []):
+            os.makedirs(os.path.join(core.BUILD, 'ocaml', name), exist_ok=True)
+            ok4, out4 = core.make_targets([extract])
+            if ok4 and not os.path.exists(os.path.join(core.BUILD, 'ocaml', name, 'model.ml')):
+                try:
+                    os.remove(os.path.join(core.COQ, extract[:-2] + '.vo'))
+                except FileNotFoundError:
+                    pass
+                ok4, out4 = core.make_targets([extract])
+            exe2, err2 = core.build_binary(name, ['ocaml/common.ml'] + drivers) if ok4 else (None, out4)
+            if exe2 is None:
+                log.append('extra binary %s failed:\n%s' % (name, (err2 or '')[-3000:]))
+                ctx.prove_ok = False
+            else:
+                ctx.extra_models[name] = core.Model(exe2)
     ctx.prove_log = '\n'.join(log)
 
 
@@ -256,6 +277,13 @@ def setup():
                 exe, err = core.build_binary(pl.ID, ['ocaml/common.ml'] + core.as_list(pl.DRIVER))
                 if exe is None:
                     print('binary for %s failed: %s' % (pl.ID, err[-1500:]))
+                    rc_all |= 1
+            for name, extract, drivers in getattr(pl, 'EXTRA_BINARIES', []):
+                os.makedirs(os.path.join(core.BUILD, 'ocaml', name), exist_ok=True)
+                ok, out = core.make_targets([extract], timeout=3000)
+                exe, err = core.build_binary(name, ['ocaml/common.ml'] + drivers) if ok else (None, out)
+                if exe is None:
+                    print('extra binary %s for %s failed: %s' % (name, pl.ID, (err or '')[-1500:]))
                     rc_all |= 1
     print('setup done in %.1fs rc=%d' % (time.time() - t0, rc_all))
     return rc_all
